@@ -5,7 +5,7 @@ Model/PageBuffer.lean — the DATA path of protocol/buffer.go's `pageBuffer` / `
   `PB`            ↔ `pageBuffer.pages` as the list of the valid bytes of every page (`page.buffer[:page.length]`);
                     page k was created by `newPage(int64(pb.length))` when `pb.length = k·P`, so `page.offset = k·P`
   `P`             ↔ `pageSize` (a parameter: nothing below depends on 65536)
-  `write`         ↔ `(*pageBuffer).Write`: fill the tail page, append new pages
+  `write`         ↔ `(*pageBuffer).Write`: fill the tail page (`fill`), append new pages (`chunk`: the loop unrolled)
   `indexOf`       ↔ `contiguousPages.indexOf`: `(offset - pages[0].offset) / pageSize`
   `slice`         ↔ `contiguousPages.slice(begin, end)`: pages `indexOf(begin) .. indexOf(end)` (inclusive when it exists)
   `pageSlice`     ↔ `(*page).slice(begin, end)`: clamp both ends into the page
@@ -37,21 +37,29 @@ def Contig (P : Nat) : List Bytes → Prop
   | [pg] => pg.length ≤ P
   | pg :: rest => pg.length = P ∧ Contig P rest
 
-/-- `Write`: the loop over `b`; `fuel` ≥ number of iterations -/
-def writeLoop (P : Nat) : Nat → List Bytes → Bytes → List Bytes
-  | 0, pages, _ => pages
-  | fuel + 1, pages, b =>
-    if b = [] then pages
-    else match pages with
-      | [] => writeLoop P fuel [[]] b                      -- `if len(pb.pages) == 0 { append(newPage()) }`
-      | [tail] =>
-        let free := P - tail.length
-        if b.length ≤ free then [tail ++ b]
-        else (tail ++ b.take free) :: writeLoop P fuel [[]] (b.drop free)
-      | pg :: rest => pg :: writeLoop P fuel rest b
+/-- the iterations of `Write`'s loop after the tail page has been filled: every further page takes up to `P` bytes -/
+def chunk (P : Nat) : Nat → Bytes → List Bytes
+  | 0, b => [b]
+  | fuel + 1, b => if b.length ≤ P then [b] else b.take P :: chunk P fuel (b.drop P)
+
+/-- first iteration of the loop: `free := tail.Cap() - tail.Len()`; everything fits, or fill the tail and go on -/
+def fill (P : Nat) (tail b : Bytes) : List Bytes :=
+  let free := P - tail.length
+  if b.length ≤ free then [tail ++ b] else (tail ++ b.take free) :: chunk P b.length (b.drop free)
+
+/-- `Write(b)` for non-empty `b`: the pages before the tail are untouched -/
+def writePages (P : Nat) : List Bytes → Bytes → List Bytes
+  | [], b => fill P [] b                                  -- `if len(pb.pages) == 0 { append(newPage()) }`
+  | [tail], b => fill P tail b
+  | pg :: rest, b => pg :: writePages P rest b
 
 def write (P : Nat) (pb : PB) (b : Bytes) : PB :=
-  { pb with pages := writeLoop P (b.length + pb.pages.length + 2) pb.pages b }
+  if b = [] then pb else { pb with pages := writePages P pb.pages b }
+
+/-- the pages with their absolute offsets (`page.offset`): base, base+P, base+2P, … -/
+def withOffs (P : Nat) : Nat → List Bytes → List (Nat × Bytes)
+  | _, [] => []
+  | base, pg :: rest => (base, pg) :: withOffs P (base + P) rest
 
 def indexOf (P : Nat) (pb : PB) (off : Nat) : Nat := (off - pb.base) / P
 
@@ -60,7 +68,7 @@ def slice (P : Nat) (pb : PB) (b e : Nat) : List (Nat × Bytes) :=
   let i := indexOf P pb b
   let j := indexOf P pb e
   let j' := if j < pb.pages.length then j + 1 else j
-  ((pb.pages.zipIdx.map fun (pg, k) => (pb.base + k * P, pg)).drop i).take (j' - i)
+  ((withOffs P pb.base pb.pages).drop i).take (j' - i)
 
 /-- `(*page).slice(begin, end)` on the valid bytes of a page at absolute offset `off` -/
 def pageSlice (P : Nat) (off : Nat) (pg : Bytes) (b e : Nat) : Bytes :=
@@ -86,17 +94,17 @@ def pageWriteAt (pg : Bytes) (rel : Nat) (b : Bytes) : Bytes × Nat :=
   let n := min b.length (pg.length - rel)
   (pg.take rel ++ b.take n ++ pg.drop (rel + n), n)
 
-def writePages (P : Nat) : List Bytes → Nat → Nat → Bytes → List Bytes
+def overwritePages (P : Nat) : List Bytes → Nat → Nat → Bytes → List Bytes
   | [], _, _, _ => []
   | pg :: rest, po, off, b =>
-    if b = [] ∨ off ≥ po + P then pg :: writePages P rest (po + P) off b
+    if b = [] ∨ off ≥ po + P then pg :: overwritePages P rest (po + P) off b
     else
       let (pg', n) := pageWriteAt pg (off - po) b
-      pg' :: writePages P rest (po + P) (off + n) (b.drop n)
+      pg' :: overwritePages P rest (po + P) (off + n) (b.drop n)
 
 /-- `WriteAt(b, off)` for `off + len(b) ≤ Size()` -/
 def writeAt (P : Nat) (pb : PB) (b : Bytes) (off : Nat) : PB :=
-  { pb with pages := writePages P pb.pages pb.base off b }
+  { pb with pages := overwritePages P pb.pages pb.base off b }
 
 def truncPages : List Bytes → Nat → List Bytes
   | [], _ => []
